@@ -192,7 +192,7 @@ class Listener(threading.Thread):
             except OSError:
                 c.close()
                 continue
-            for _ in range(40):
+            for _ in range(300):
                 if peer_port in self.own_ports:
                     break
                 time.sleep(0.005)
@@ -383,11 +383,10 @@ class TLSNet:
 
         def create_connection(address: tuple[str, int], timeout: typing.Any = None, source_address: typing.Any = None, socket_options: typing.Any = None) -> socket.socket:
             self.dials.append((address[0], address[1]))
-            s = socket.socket(socket.AF_INET, socket.SOCK_STREAM)
-            s.settimeout(5.0)
-            s.bind(("127.0.0.1", 0))
+            # (no bind-before-connect: the kernel must pick a source port knowing the destination, or a busy run
+            # hits EADDRNOTAVAIL on 4-tuples still in TIME_WAIT; the listener waits for the port to be registered)
+            s = socket.create_connection(("127.0.0.1", self.listener.port), timeout=5.0)
             self.listener.own_ports.add(s.getsockname()[1])
-            s.connect(("127.0.0.1", self.listener.port))
             self.client_socks.append(s)
             return s
 
